@@ -3,10 +3,22 @@
 import json, os, subprocess
 ROOT = os.path.dirname(os.path.dirname(os.path.abspath(__file__)))
 
-HOOK_COMMITS = ["2c68a33"]
+HOOK_COMMITS = ["2c68a33", "da4e8eb"]
 
 # id -> (engine, level, technique, level text, level note)
 CHECKS = {
+ "C04": ("bubble", "exploration",
+         "process-exit/panic/race oracle plus liveness probe of uninvolved sessions after every hostile step (bubble), under the race detector",
+         "runtime monitor: hostile sessions send every message type in every session state with hostile values in every field/option/detail position and correlated multi-step recipes over all transports; after each step two uninvolved sessions must complete a pub/sub, RPC and meta exchange at quiescence and still be attached; a worker process death (panic, fatal error) is attributed to the logged case by the driver; data-race reports with nexus frames are violations of this property",
+         "inputs never generated and resource exhaustion by sheer volume are not covered; live-socket stress is not part of this check"),
+ "C05": ("bubble", "fault_enumeration",
+         "departure injected at every step of a script in four ways; lock-step model across the departure + owner-goroutine table-size snapshot hook compared with the post-NewRouter baseline",
+         "runtime monitor with fault enumeration: for each generated base script the end of a chosen session is injected after every step k and in each of four ways (exhaustive over (k, way) for that script); the model checks the departure effects, and after all sessions left and 3 virtual hours passed the hook snapshot of every realm/broker/dealer table must equal the baseline; churn rounds compare snapshots round over round",
+         "Go heap growth is not judged; the snapshot hook reads sizes inside the owning goroutines (read-only)"),
+ "C12": ("bubble", "exploration",
+         "disclosure predicate via lock-step model plus independence monitors on delivered message objects (restricted twin publications, snapshot-at-receipt vs re-read, recipient-side mutation, meta output scan)",
+         "runtime monitor: identity keys present iff the predicate holds with true values; the same publication restricted to one recipient must give that recipient identical details; in-process message objects are re-read after quiescence and after further traffic and after another recipient mutated its copy; on_join and wamp.session.get are scanned for transport.auth",
+         "private copies are judged at the top level of details, arguments and keyword arguments (I12); sender/recipient aliasing of call payloads is not judged"),
  "C14": ("pure", "exploration",
          "runtime round-trip / cross-format / shape monitors and hostile-byte monitors with an independent generic decode (checkptr build)",
          "runtime monitor on the real serializers: generated messages of all 24 types are serialised and deserialised by each format and compared in a canonical form, the encoded list shape is checked by an independent generic decode, and hostile byte strings must give error xor message, never a panic, and a message only if the bytes are generically a list headed by a known code with kind-compatible fields",
